@@ -97,6 +97,7 @@ class Obligation:
         self.time_s = None
         self.model = None
         self.raw = None
+        self.quantified = False
 
     def smt2(self):
         s = z3.Solver()
